@@ -292,12 +292,17 @@ func (g *c04Gen) decodeCase(name string, mk func() interface{}, show func(interf
 		return
 	}
 	s, rfc := show(p)
-	if !rfc {
-		// the repository's JSON entry type (0x8000), an extension the RFC does not have: nothing to compare with
-		g.out.Count("class:dec-json-extension")
+	if strings.HasPrefix(s, "FAIL ") {
+		g.out.Fail(strings.TrimPrefix(s, "FAIL ")+" "+op, "tls.Unmarshal accepted it")
 		return
 	}
-	g.out.Count("class:dec-ok")
+	if !rfc {
+		// the repository's JSON entry type (0x8000), an extension the RFC does not have; the model answers it from the
+		// regenerated type (the RFC decoder refuses it)
+		g.out.Count("class:dec-json-extension")
+	} else {
+		g.out.Count("class:dec-ok")
+	}
 	consumed := data[:len(data)-len(rest)]
 	re, ok, _ := c04Marshal(reflect.ValueOf(p).Elem().Interface())
 	if !ok || !bytes.Equal(re, consumed) {
@@ -416,8 +421,12 @@ func (g *c04Gen) sctListCase(scts [][]byte) {
 
 func showLeafDecoded(p interface{}) (string, bool) {
 	l := p.(*MerkleTreeLeaf)
-	if l.TimestampedEntry == nil || l.TimestampedEntry.JSONEntry != nil {
-		return "", false
+	if l.TimestampedEntry == nil || l.LeafType != 0 {
+		// select(leaf_type) has the single case timestamped_entry(0): nothing else may decode
+		return fmt.Sprintf("FAIL unknown-leaf-type-accepted lt=%d", l.LeafType), false
+	}
+	if te := l.TimestampedEntry; te.JSONEntry != nil {
+		return fmt.Sprintf("json v=%d ts=%d data=%s ext=%s", l.Version, te.Timestamp, hx(te.JSONEntry.Data), hx(te.Extensions)), false
 	}
 	return showLeaf(l), true
 }
@@ -426,6 +435,29 @@ func (g *c04Gen) one(it int) {
 	r := g.r
 	switch it % 10 {
 	case 0, 1: // MerkleTreeLeaf / TimestampedEntry
+		if r.Intn(12) == 0 {
+			// the repository's extension to RFC 6962: entry type 0x8000 with a JSONDataEntry (the model answers from the
+			// regenerated type; the RFC transcription has no such entry)
+			leaf := MerkleTreeLeaf{Version: Version(g.enum8() % 256), TimestampedEntry: &TimestampedEntry{Timestamp: g.u64(),
+				EntryType: LogEntryType(0x8000), JSONEntry: &JSONDataEntry{Data: g.bytes(g.length() % 300)}, Extensions: g.bytes(g.length() % 300)}}
+			te := leaf.TimestampedEntry
+			op := fmt.Sprintf("SJ MerkleTreeLeaf v=%d ts=%d data=%s ext=%s", leaf.Version, te.Timestamp, hx(te.JSONEntry.Data), hx(te.Extensions))
+			enc, ok, pan := c04Marshal(leaf)
+			if pan != "" || !ok {
+				g.out.Fail("json-extension "+op, "tls.Marshal refused / panicked on a JSON-extension leaf: "+pan)
+				return
+			}
+			g.out.Count("class:enc-json-extension")
+			g.out.T(op, hx(enc))
+			g.roundTrip(op, leaf, enc)
+			for _, m := range g.mutants(enc) {
+				g.decodeCase("MerkleTreeLeaf", func() interface{} { return &MerkleTreeLeaf{} }, showLeafDecoded, m)
+			}
+			if _, err := RawLogEntryFromLeaf(1, &LeafEntry{LeafInput: enc, ExtraData: []byte{0, 0, 0}}); err == nil {
+				g.out.Fail("rawlogentry "+op, "RawLogEntryFromLeaf accepted the JSON entry type")
+			}
+			return
+		}
 		e := g.entry()
 		ext := g.bytes(g.length())
 		leaf := MerkleTreeLeaf{Version: Version(g.enum8()), LeafType: MerkleLeafType(0), TimestampedEntry: &TimestampedEntry{
@@ -708,6 +740,9 @@ func (g *c04Gen) jsonCase(it int) {
 	g.out.T(op, fmt.Sprintf("ok size=%d ts=%d root=%s %s", sth.TreeSize, sth.Timestamp, hx(sth.SHA256RootHash[:]), showDS(tls.DigitallySigned(sth.TreeHeadSignature))))
 	if sth.TreeSize != rsp.TreeSize || sth.Timestamp != rsp.Timestamp || !bytes.Equal(sth.SHA256RootHash[:], rsp.SHA256RootHash) {
 		g.out.Fail("json "+op, "ToSignedTreeHead lost or changed a field")
+	}
+	if back, ok, _ := c04Marshal(tls.DigitallySigned(sth.TreeHeadSignature)); !ok || !bytes.Equal(back, rsp.TreeHeadSignature) {
+		g.out.Fail("json "+op, "signature does not re-encode to the bytes of the message")
 	}
 }
 
